@@ -55,6 +55,17 @@ def constants(chk, init, c):
     need = ['p', 'm', 'warmup_size', 'width']
     missing = [k for k in need if k not in c]
     if missing:
+        # found and wrong: the number of index bits is computed from a constructor argument - the warm-up capacity (exactness up to 2**18) and the
+        # register count then vary with the caller
+        from .common import param_deps
+        ip = [q for q in init.params if q != 'self']
+        for n_ in own_nodes(init.node):
+            if isinstance(n_, ast.Assign) and any(_is_self_attr(t_, 'p') for t_ in n_.targets):
+                dep = param_deps(init, n_.value) & set(ip)
+                if dep:
+                    chk.bad('C14.1', 'R8', init.site(n_), ast.unparse(n_)[:100], f'the number of index bits self.p is computed from the constructor argument `{sorted(dep)[0]}` instead of being 19: the warm-up capacity '
+                            '2**(p-1) (the range in which the count is exact) and the number of registers depend on the caller - with the default error rate the count is exact only up to 2**15, not 2**18')
+                    return
         chk.unsure('C14.1', 'R8', init.site(), str(missing), 'sketch parameters are not foldable constants of __init__')
         return
     chk.expect(c['warmup_size'] == 2 ** 18, 'C14.1a', 'R8', init.site(), f'warmup_size = {c["warmup_size"]}', 'warm-up capacity folds to 2**18',
@@ -496,6 +507,7 @@ def estimator(chk, ln, consts):
     rets = returns(ln)
     E = lambda s: expected_term(m, s)
     zero_forms = ['len(numpy.where(self.M == 0)[0])', 'numpy.count_nonzero(self.M == 0)', 'numpy.sum(self.M == 0)', '(self.M == 0).sum()', 'self.m - numpy.count_nonzero(self.M)']
+    zero_forms += [f'int({z})' for z in zero_forms] + ['len(numpy.flatnonzero(self.M == 0))', 'numpy.flatnonzero(self.M == 0).size', 'numpy.where(self.M == 0)[0].size']
     cores = [E(f'self.m * numpy.log(self.m / {z})') for z in zero_forms] + [E(f'self.m * numpy.log(numpy.divide(self.m, {z}))') for z in zero_forms] + \
             [E(f'self.m * math.log(self.m / {z})') for z in zero_forms] + [E(f'-self.m * numpy.log({z} / self.m)') for z in zero_forms]
     exact = E('len(self.warmup_set)')
